@@ -5,6 +5,7 @@ from harness.props.recorder_common import RecorderProp
 from harness.rvals import canon, canon_wire, rand_value, to_py
 
 OUT_ALIASES = ['send', 'store', 'emit']
+RAISED = ['ValueError', 'KeyError', 'AssertionError', 'CustomError', 'NotImplementedError', 'StopIteration']
 
 
 def const(w):
@@ -35,7 +36,7 @@ class C03(RecorderProp):
             sites['o%d' % i] = {'kind': 'out', 'alias': rng.choice(OUT_ALIASES), 'flavor': rng.choice(['instance', 'static']),
                                 'nargs': rng.choice([0, 1, 2]), 'kwnames': rng.sample(['k', 'opt'], rng.choice([0, 0, 1])),
                                 'handler': rng.choice(['', '', 'wrap']), 'failOnMissing': True, 'default': None,
-                                'body': ([{'op': 'raise', 't': rng.choice(['ValueError', 'KeyError'])}] if rng.random() < 0.2 else [])
+                                'body': ([{'op': 'raise', 't': rng.choice(RAISED)}] if rng.random() < 0.2 else [])
                                 + [{'op': 'ret', 'e': const(rng.choice([None, {'s': 'ack'}, {'i': '1'}]))}]}
         ncalls = rng.choice([1, 2, 3, 4, 6, 8]) if rng.random() < 0.8 else rng.randint(10, 14)
         script = []
@@ -53,7 +54,7 @@ class C03(RecorderProp):
                 if kw:
                     st['kw'] = kw
                 script.append(st)
-        final = {'op': 'ret', 'e': const(rand_value(rng, 1))} if rng.random() < 0.8 else {'op': 'raise', 't': 'ValueError'}
+        final = {'op': 'ret', 'e': const(rand_value(rng, 1))} if rng.random() < 0.8 else {'op': 'raise', 't': rng.choice(RAISED)}
         script.append(final)
         edited = self.edit(rng, copy.deepcopy(script), sites)
         runs = [{'run': 'op', 'cls': 'OpA', 'enabled': True, 'script': script, 'draws': [], 'clock': [1, 2]}]
@@ -93,7 +94,7 @@ class C03(RecorderProp):
         elif kind == 'final':
             script[-1] = {'op': 'ret', 'e': const({'s': 'EDITED-RESULT'})}
         elif kind == 'raise':
-            script[-1] = {'op': 'raise', 't': 'KeyError'}
+            script[-1] = {'op': 'raise', 't': rng.choice(RAISED)}
         return script
 
     def generate(self, rng, tier):
